@@ -19,6 +19,7 @@ import (
 	"runtime"
 	"strings"
 	"time"
+	"unicode/utf8"
 
 	"github.com/bytedance/sonic"
 	"github.com/bytedance/sonic/ast"
@@ -128,6 +129,9 @@ func errWFBounded(err error, inputLen int) (string, int) {
 		}()
 		msg := err.Error()
 		n = len(msg)
+		if t := strings.TrimSpace(msg); t == "" || strings.HasSuffix(t, ":") || !utf8.ValidString(msg) || strings.ContainsRune(msg, 0) {
+			problem = fmt.Sprintf("error message without a reason or with garbage: %q", clip(msg, 120))
+		}
 		if d, ok := err.(interface{ Description() string }); ok {
 			if l := len(d.Description()); l > n {
 				n = l
